@@ -224,6 +224,17 @@ func c10KindOfClientErr(err error) string {
 
 func checkC10(c *lib.Ctx) {
 	r := c.R
+	if c.Replay != "" {
+		// replays of section (d) carry their scenario; the older sections are deterministic and simply re-run
+		var scn c10rScn
+		if err := lib.ReadReplay(c.Replay, &scn); err == nil && scn.Sect == "ret" {
+			r.Rule = c10rRule_
+			checkC10Ret(c, &scn)
+			return
+		}
+	}
+	defer func() { r.Rule += "; " + c10rRule_ }()
+	defer checkC10Ret(c, nil)
 	r.Rule = "(a) cleanPathWithBase vs the Lean path model: exhaustive over all strings of length <= 7 (quick) / <= 8 (thorough) over the alphabet {'/', '.', 'a', 0xff} with 5 bases, plus PRNG strings; (b) end to end through a real RequestServer with recording handlers: every request kind x tricky path strings x start directories: handler called exactly once with the expected method, AbsClean paths, the flags and attribute bytes sent; (c) error algebra: every error term of the stated families returned by a handler, through statusFromError -> wire -> normaliseError, kind seen by the client; non-trivial = path needing cleaning / wrapped error"
 	// ---------- (a) path model differential ----------
 	alpha := []byte{'/', '.', 'a', 0xff}
